@@ -168,6 +168,21 @@ def log_once(ctx, kind: str) -> None:
                   f"log() appends to {targets} ({'conditionally' if not uncond else 'unconditionally'}); the parallel lists must grow by exactly one each", where=lf.where())
 
 
+def _root_names(fv, expr: ast.AST, at: int, depth: int = 0) -> set:
+    """Names an expression is computed from, looking through single-definition temporaries (n_entries = nsteps * 2)."""
+    out = set()
+    for s_ in ast.walk(expr):
+        if not isinstance(s_, ast.Name):
+            continue
+        raw, d = fv.def_expr(s_, at)
+        if raw is s_ or depth > 4 or isinstance(raw, ast.Constant):
+            out.add(s_.id)
+        else:
+            inner = _root_names(fv, raw, d, depth + 1)
+            out |= inner if inner else {s_.id}
+    return out
+
+
 def condense_count(ctx, dev) -> None:
     rule = "C11.condense-count"
     f = ctx.prog.find_method(dev, "transfer")
@@ -189,9 +204,7 @@ def condense_count(ctx, dev) -> None:
         n_arg = (fv.bind_args(cs) or {}).get("n")
         if n_arg is None:
             continue
-        for s in ast.walk(n_arg):
-            if isinstance(s, ast.Name):
-                counters.add(s.id)
+        counters |= _root_names(fv, n_arg, cs.node)
     if len(counters) != 1:
         ctx.rep.inconclusive(rule, cb + "/counter", f"cannot identify the step counter ({sorted(counters)})", where=f.where())
         return
@@ -245,7 +258,7 @@ def condense_count(ctx, dev) -> None:
             # the counter after the loops (a §phi / §rec of its definitions)
             return cp if any(isinstance(s, ast.Name) and s.id == _cnt for s in ast.walk(e)) or is_sym(e, "phi") or is_sym(e, "rec") else None
 
-        raw_n = (fv.bind_args(cs) or {})["n"]
+        raw_n = fv.def_expr((fv.bind_args(cs) or {})["n"], cs.node)[0]
         rp = to_poly(raw_n, lambda e: cp if is_name(e, cnt) else None)
         want = cp * Poly.const(2) if same_branch else cp
         if same_branch is None:
@@ -265,34 +278,33 @@ def condense_count(ctx, dev) -> None:
 
 def lvh_count(ctx, dev) -> None:
     rule = "C11.lvh-count"
-    f = ctx.prog.find_method(dev, "transfer")
-    fv = ctx.fv(f, dev)
+    from . import lvh_model
+    from .c06 import _vol_lists
+
+    t, cands = _vol_lists(ctx, dev, rule)
+    fv, f = t.fv, t.f
     cb = f"{dev.name}.transfer"
-    incs = [n for n in fv.cfg.nodes if n.kind == "stmt" and isinstance(n.ast, ast.AugAssign) and isinstance(n.ast.target, ast.Name) and "lvh" in n.ast.target.id.lower()]
-    if len(incs) != 1:
-        ctx.rep.inconclusive(rule, cb, f"expected one accumulation of the LVH counter, found {len(incs)}")
+    cnt = lvh_model.counter_name(fv, f)
+    if cnt is None:
+        ctx.rep.inconclusive(rule, cb, "cannot identify the counter printed into the `LVH steps` label", where=f.where())
         return
-    v = incs[0].ast.value
-    w = f.where(incs[0].ast)
-    ok = None
-    detail = f"unrecognised LVH summation `{show(v)[:80]}`"
-    if isinstance(v, ast.Call) and call_fname(v) == "sum" and v.args and isinstance(v.args[0], (ast.ListComp, ast.GeneratorExp)):
-        comp = v.args[0]
-        elt = comp.elt
-        g = comp.generators[0]
-        var = g.target.id if isinstance(g.target, ast.Name) else None
-        lenx = ast.Call(func=ast.Name(id="len", ctx=ast.Load()), args=[ast.Name(id=var, ctx=ast.Load())], keywords=[]) if var else None
-        raw = lenx is not None and to_poly(elt) == Poly.symbol(lenx) - Poly.const(1)
-        clamped = isinstance(elt, ast.Call) and call_fname(elt) == "max" and len(elt.args) == 2 and lenx is not None and any(
-            to_poly(a) == Poly.symbol(lenx) - Poly.const(1) for a in elt.args) and any(isinstance(a, ast.Constant) and a.value == 0 for a in elt.args)
-        filtered = raw and any(True for _ in g.ifs)
-        # the iterated list must be the per-well volume lists of this column group
-        if clamped or filtered:
-            ok = True
-        elif raw:
-            ok = False
-            detail = "a well whose volume list is empty (zero volume) contributes len(vs) - 1 = -1: the reported number of LVH steps is too small (can be negative)"
-    ctx.rep.check(ok, rule, cb + "/summand", "every summand is max(len(vs) - 1, 0)", detail, where=w)
+    if len(cands) != 1 or not isinstance(cands[0].ast.targets[0], ast.Name):
+        ctx.rep.inconclusive(rule, cb, "list of per-well step lists not found", where=f.where())
+        return
+    L = cands[0].ast.targets[0].id
+    # the step counter handed to condense_log (its meaning - one per executed pair - is C11.condense-count)
+    counters = set()
+    for cs in fv.calls():
+        if cs.callee.kind == "func" and cs.callee.func.short == "Labware.condense_log":
+            n_arg = (fv.bind_args(cs) or {}).get("n")
+            if n_arg is not None:
+                counters |= _root_names(fv, n_arg, cs.node)
+    step_counter = counters.pop() if len(counters) == 1 else None
+    verdict, detail = lvh_model.evaluate(ctx, t, L, cnt, step_counter)
+    defs = [n for n in fv.cfg.nodes if n.kind == "stmt" and isinstance(n.ast, (ast.Assign, ast.AugAssign)) and is_name(n.ast.targets[0] if isinstance(n.ast, ast.Assign) else n.ast.target, cnt)]
+    w = f.where(defs[-1].ast) if defs else f.where()
+    ctx.rep.check(True if verdict == "holds" else False if verdict == "refuted" else None, rule, cb + "/summand",
+                  detail, detail + (": the history label reports a wrong number of LVH steps" if verdict == "refuted" else ""), where=w)
 
 
 def slice_zero(ctx) -> None:
